@@ -129,6 +129,9 @@ func hCheckNodes(got []*shared.ParserNode, want []hNode) {
 		verifAssert("note-count", ng == len(w.notes))
 		if ng == len(w.notes) {
 			for j := range w.notes {
+				if w.notes[j].key == "\x00free" {
+					continue // a free-form note: it is a note; how it splits at a colon is not asserted
+				}
 				verifAssert("note-key", (*g.Metadata)[j].Name == w.notes[j].key)
 				verifAssert("note-text", (*g.Metadata)[j].Value == w.notes[j].text)
 			}
@@ -234,7 +237,20 @@ func Harness_parse_line_step() {
 	case 3: // note "# key: text" / "# text"
 		verifLabel("class", "note")
 		ind := hPick("indent", hIndents[:2], 2)
-		if verifChoose("keyed", 2) == 1 {
+		shape := verifChoose("keyed", 3)
+		if shape == 2 {
+			// free-form note: any bytes after the comment sign (punctuation first, colons anywhere)
+			k := 1 + verifChoose("tn", nmax)
+			text := verifBytes("text", k)
+			for i := 0; i < k; i++ {
+				verifAssume(text[i] != '\n')
+				verifAssume(text[i] != '\r')
+			}
+			line = ind + "#" + hPick("nsp", []string{" ", ""}, 2) + text
+			if open {
+				cur.notes = append(cur.notes, hNote{"\x00free", ""})
+			}
+		} else if shape == 1 {
 			key := hWord("key", 1+verifChoose("kn", 2), false)
 			text := hWord("text", 1+verifChoose("tn", nmax), true)
 			line = ind + "# " + key + ": " + text
